@@ -7,7 +7,7 @@ from props import fam_sym
 
 MANIFEST = dict(
     technique='Coq proof (phase transport over Z/24 for every group, list and symmetry-consistent phase function) + differential check + sphere-function oracles on gemmi',
-    text='ensure_asu is also run on a file with two datasets that use the same (+)/(-) labels (each pair must be swapped within its own dataset). Theorems for every row of the regenerated table, both ASU conventions and every hkl: ensure_asu never fails; the phase it stores after moving a reflection (shift -(h.t) of the ORIGINAL index, negation for Friedel mates) is the true phase of the new index for any phase function obeying F(hR)=F(h)exp(-2 pi i h.t) and Friedel law; original -> (ASU index, ISYM) -> original restores unmerged indices; expand_to_p1 (for ANY operation list and hkl): the original and its copies are pairwise distinct with no Friedel pair, every image of every operation is present itself or as its mate (whole orbit for every table group), and each copy carries the phase shift of the operation that produced it, hence the true phase of its index. RE-INDEXING (Move/Reindex.v): with new index hP and new operation P^-1 g P computed as GroupOps::change_basis_impl does, in the integer arithmetic of the library (the exact divisions the code performs are the hypotheses), the relabelled operation acts on the relabelled index as the old one on the old index, with the same phase shift modulo whole turns, an operation fixing an index becomes one fixing its new label (absences, centricity, epsilon preserved) and the inverse operator restores the index. THE (+)/(-) ASSIGNMENT (Move/PlusMinus.v, a model of Mtz::positions_of_plus_minus_columns on label bytes, column type and dataset id, and of the swap loop of ensure_asu): a pair is reported exactly when a column with the (-) spelling of the first (+) sign, the same type and the same dataset exists anywhere in the file, before or after the (+) column (soundness + completeness, the partner is the first such column and never the column itself); for an ordinary column set (at most one opening parenthesis per label, no two columns with the same label, type and dataset) the pairs are disjoint, the swap exchanges exactly the two values of every pair, leaves every other column alone and is an involution (moving back through the Friedel mate restores the row); compared with the code on generated column layouts (pairs in either order, interleaved, duplicated candidates, near misses in type / dataset / spelling, labels with several signs) through positions_of_plus_minus_columns and the real ensure_asu. The index/phase/(+)/(-)-swap bookkeeping model is compared exactly with Mtz::ensure_asu, AsuData::ensure_asu and Mtz::expand_to_p1 (order, indices and phase shifts of the appended rows) on every row; oracles on gemmi compare F, phase, HL coefficients, F(+)/F(-)/DANO of transformed lists (ensure_asu, AsuData::ensure_asu, expand_to_p1) with structure factors of a point-atom model, check unmerged original<->ASU round trips with M/ISYM flags, and reindexing (d-spacing, absences, centricity, epsilon preserved; undone by the inverse operator).',
+    text='ensure_asu is also run on a file with two datasets that use the same (+)/(-) labels (each pair must be swapped within its own dataset). Theorems for every row of the regenerated table, both ASU conventions and every hkl: ensure_asu never fails; the phase it stores after moving a reflection (shift -(h.t) of the ORIGINAL index, negation for Friedel mates) is the true phase of the new index for any phase function obeying F(hR)=F(h)exp(-2 pi i h.t) and Friedel law; original -> (ASU index, ISYM) -> original restores unmerged indices; expand_to_p1 (for ANY operation list and hkl): the original and its copies are pairwise distinct with no Friedel pair, every image of every operation is present itself or as its mate (whole orbit for every table group), and each copy carries the phase shift of the operation that produced it, hence the true phase of its index. THE ROW RULE OF RE-INDEXING (Move/ReindexRows.v, compared exactly with Mtz::reindex on fractional operators): a row stays iff all three new indices are integral and then carries exactly h P; the list after re-indexing is, in order, the integral images. RE-INDEXING (Move/Reindex.v): with new index hP and new operation P^-1 g P computed as GroupOps::change_basis_impl does, in the integer arithmetic of the library (the exact divisions the code performs are the hypotheses), the relabelled operation acts on the relabelled index as the old one on the old index, with the same phase shift modulo whole turns, an operation fixing an index becomes one fixing its new label (absences, centricity, epsilon preserved) and the inverse operator restores the index. THE (+)/(-) ASSIGNMENT (Move/PlusMinus.v, a model of Mtz::positions_of_plus_minus_columns on label bytes, column type and dataset id, and of the swap loop of ensure_asu): a pair is reported exactly when a column with the (-) spelling of the first (+) sign, the same type and the same dataset exists anywhere in the file, before or after the (+) column (soundness + completeness, the partner is the first such column and never the column itself); for an ordinary column set (at most one opening parenthesis per label, no two columns with the same label, type and dataset) the pairs are disjoint, the swap exchanges exactly the two values of every pair, leaves every other column alone and is an involution (moving back through the Friedel mate restores the row); compared with the code on generated column layouts (pairs in either order, interleaved, duplicated candidates, near misses in type / dataset / spelling, labels with several signs) through positions_of_plus_minus_columns and the real ensure_asu. The index/phase/(+)/(-)-swap bookkeeping model is compared exactly with Mtz::ensure_asu, AsuData::ensure_asu and Mtz::expand_to_p1 (order, indices and phase shifts of the appended rows) on every row; oracles on gemmi compare F, phase, HL coefficients, F(+)/F(-)/DANO of transformed lists (ensure_asu, AsuData::ensure_asu, expand_to_p1) with structure factors of a point-atom model, check unmerged original<->ASU round trips with M/ISYM flags, and reindexing (d-spacing, absences, centricity, epsilon preserved; undone by the inverse operator).',
     note='Trusted: Coq kernel + vm_compute; translator; extraction; harness (its point-atom structure-factor oracle in double precision, tolerances 1e-3 relative on amplitudes, 0.05 degree on phases). No axioms. HL rotation is decided by the oracles only (no theorem); reindexing: theorem per operation, the new cell, the space-group lookup and the row removal by the oracle.')
 
 
@@ -36,6 +36,15 @@ def run(chk):
                 if tnt == 0:
                     lines.append('expand\t%d %d %d %d' % (i, *hkl))
     lines += pm_lines(rng, 400 if quick else 20000)
+    # the row rule of Mtz::reindex (model Move/ReindexRows.v): operators with fractional entries (h/2, (h+k)/2, l/3 ...) on
+    # index lists with every parity combination; a row stays iff all three new indices are integral
+    rx_ops = [[24, 0, 0, 0, 24, 0, 0, 0, 12], [12, 0, 0, 0, 24, 0, 0, 0, 24], [24, 0, 0, 0, 12, 0, 0, 0, 24], [12, 12, 0, -12, 12, 0, 0, 0, 24],
+              [24, 0, 0, 0, 24, 0, 0, 0, 8], [8, 0, 0, 0, 8, 0, 0, 0, 8], [12, 12, 0, 0, 24, 0, 0, 0, 12], [0, 24, 0, 0, 0, 12, 24, 0, 0],
+              [24, 0, 0, 0, 24, 0, 0, 0, 24], [48, 0, 0, 0, 24, 0, 0, 0, 12], [16, 8, 0, -8, 8, 0, 0, 0, 24], [6, 0, 0, 0, 24, 0, 0, 0, 24]]
+    for _ in range(300 if quick else 10000):
+        o = rng.choice(rx_ops)
+        hk = [rng.randint(-7, 7) for _ in range(3 * rng.randint(1, 8))]
+        lines.append('rx\t%s | %s' % (' '.join(map(str, o)), ' '.join(map(str, hk))))
     orows = rows if not quick else sorted(set(rng.sample(rows, 150) + [0, 1, 3, 12, 114, 146, 170, 200, 353, 409, 434, 500, 529, 530, 563]))
     for i in orows:
         seed = rng.randint(1, 10 ** 6)
@@ -66,7 +75,7 @@ def run(chk):
                     replay={'harness': 'h_move', 'line': cmd + '\t' + args})
     for (line, kind, err) in res['crashes']:
         chk.violate('crash', 'h_move %s on %s' % (kind, line), err, replay={'harness': 'h_move', 'line': line})
-    chk.rule = ('pm: generated column layouts ((+)/(-) pairs in both orders, duplicates, near misses) through positions_of_plus_minus_columns and ensure_asu vs the model; move/expand: every row x both conventions x random/special hkl through Mtz::ensure_asu, AsuData::ensure_asu and Mtz::expand_to_p1, compared '
+    chk.rule = ('rx: index lists through Mtz::reindex with fractional operators vs the row-rule model; pm: generated column layouts ((+)/(-) pairs in both orders, duplicates, near misses) through positions_of_plus_minus_columns and ensure_asu vs the model; move/expand: every row x both conventions x random/special hkl through Mtz::ensure_asu, AsuData::ensure_asu and Mtz::expand_to_p1, compared '
                 'exactly with the model (new index, phase sign and shift in 1/24 turn, (+)/(-) swap); oracles o_ensure/o_asudata/'
                 'o_expand/o_switch/o_reindex on gemmi with point-atom truth. non-trivial = not skipped/rejected')
     if not proved:
